@@ -9,6 +9,7 @@ import (
 	"flag"
 	"fmt"
 	"os"
+	"runtime"
 	"strconv"
 	"strings"
 
@@ -127,6 +128,7 @@ func batchMain(args []string) {
 		r.PrefixSeeds = prefixSeeds
 		r.Tier = *tier
 		r.TZ = os.Getenv("TZ")
+		r.GMP = runtime.GOMAXPROCS(0)
 		if *racelog != "" {
 			after, name := raceLogSize(*racelog)
 			if after > before {
